@@ -799,7 +799,7 @@ class PointJacobi(AbstractPoint):
         HH = H * H
         I = 4 * HH % p
         J = H * I
-        r = 2 * (Y2 - Y1)
+        r = 2 * (Y2 - Y1) % p
         if not H and not r:
             return self._double_with_z_1(X1, Y1, p, self.__curve.a())
         V = X1 * I
